@@ -73,26 +73,45 @@ let read_iss_args t : iss_args =
   let bl = next_int t = 1 in
   { ia_precision = prec; ia_contract = c; ia_asset = asset; ia_token = token; ia_aaddr = aa; ia_taddr = ta; ia_blinded = bl }
 
+(* one v0 step (the op token has been read) *)
+let v0_step t op (p : v0pkt) : bool * v0pkt =
+  if op = "add" then v0_add_issuance p (read_iss_args t)
+  else begin
+    let utxo_ok = next_int t = 1 in
+    let _ = next t in let hash = next_opt t in
+    let idx = next_dec t in
+    let bl = next_hex t in
+    let _ = next t in let ent = next_opt t in
+    let asset = next_dec t in let token = next_dec t in
+    let aa = read_addr t in let ta = read_addr t in
+    v0_add_reissuance p { rva_utxo_ok = utxo_ok; rva_hash = hash; rva_index = idx; rva_blinder = bl; rva_entropy = ent;
+                          rva_asset = asset; rva_token = token; rva_aaddr = aa; rva_taddr = ta }
+  end
+
 let cmd_issv0 t =
   let op = next t in
   let nin = next_dec t in let nout = next_dec t in
   let tx = Drv_tx.read_tx t in
   let p = { v0_tx = tx; v0_nin = nin; v0_nout = nout } in
-  let (ok, p') =
-    if op = "add" then v0_add_issuance p (read_iss_args t)
-    else begin
-      let utxo_ok = next_int t = 1 in
-      let _ = next t in let hash = next_opt t in
-      let idx = next_dec t in
-      let bl = next_hex t in
-      let _ = next t in let ent = next_opt t in
-      let asset = next_dec t in let token = next_dec t in
-      let aa = read_addr t in let ta = read_addr t in
-      v0_add_reissuance p { rva_utxo_ok = utxo_ok; rva_hash = hash; rva_index = idx; rva_blinder = bl; rva_entropy = ent;
-                            rva_asset = asset; rva_token = token; rva_aaddr = aa; rva_taddr = ta }
-    end in
+  let (ok, p') = v0_step t op p in
   Printf.printf "res=%s nin=%s nout=%s tx=%s\n" (if ok then "ok" else "err") (dec_of_n p'.v0_nin) (dec_of_n p'.v0_nout)
     (Drv_tx.dump_tx p'.v0_tx)
+
+(* a history of calls on one updater: the packet a call leaves behind (also a failed one) is the next call's *)
+let cmd_issh0 t =
+  let nin = next_dec t in let nout = next_dec t in
+  let tx = Drv_tx.read_tx t in
+  let p = ref { v0_tx = tx; v0_nin = nin; v0_nout = nout } in
+  let n = next_int t in
+  let out = ref [] in
+  for i = 1 to n do
+    let op = next t in
+    let (ok, p') = v0_step t op !p in
+    p := p';
+    out := Printf.sprintf "r%d=%s n%d=%s/%s t%d=%s" i (if ok then "ok" else "err") i (dec_of_n p'.v0_nin) (dec_of_n p'.v0_nout)
+             i (Drv_tx.dump_tx p'.v0_tx) :: !out
+  done;
+  print_endline (Stdlib.String.concat " " (Stdlib.List.rev !out))
 
 let read_v2pkt t : v2pkt =
   let incount = next_dec t in let outcount = next_dec t in
@@ -141,25 +160,42 @@ let tx_view (f : v2in -> issuance option) (p : v2pkt) : string =
     hex_of_bytes x.o_asset ^ "/" ^ hex_of_bytes x.o_value ^ "/" ^ hex_of_bytes x.o_script ^ "/" ^ hex_of_bytes x.o_nonce) p.v2_outs in
   Stdlib.String.concat "," (ins @ ["o"] @ outs)
 
+let v2_step t op (p : v2pkt) : bool * v2pkt =
+  let idx = int_of_string (next t) in
+  let zidx = if idx = 0 then Z0 else if idx > 0 then Zpos (pos_of_int idx) else Zneg (pos_of_int (- idx)) in
+  if op = "add" then v2_add_in_issuance p zidx (read_iss_args t)
+  else begin
+    let bl = next_hex t in
+    let _ = next t in let ent = next_opt t in
+    let asset = next_dec t in let token = next_dec t in
+    let aa = read_addr t in let ta = read_addr t in
+    v2_add_in_reissuance p zidx { r2_blinder = bl; r2_entropy = ent; r2_asset = asset; r2_token = token; r2_aaddr = aa; r2_taddr = ta }
+  end
+
+let v2_getters (p : v2pkt) : string =
+  Stdlib.String.concat "," (Stdlib.List.map (fun i ->
+    tok_of_opt (get_issuance_asset_hash i) ^ "/" ^ tok_of_opt (get_issuance_keys_hash i)) p.v2_ins)
+
 let cmd_issv2 t =
   let op = next t in
   let p = read_v2pkt t in
-  let idx = int_of_string (next t) in
-  let zidx = if idx = 0 then Z0 else if idx > 0 then Zpos (pos_of_int idx) else Zneg (pos_of_int (- idx)) in
-  let (ok, p') =
-    if op = "add" then v2_add_in_issuance p zidx (read_iss_args t)
-    else begin
-      let bl = next_hex t in
-      let _ = next t in let ent = next_opt t in
-      let asset = next_dec t in let token = next_dec t in
-      let aa = read_addr t in let ta = read_addr t in
-      v2_add_in_reissuance p zidx { r2_blinder = bl; r2_entropy = ent; r2_asset = asset; r2_token = token; r2_aaddr = aa; r2_taddr = ta }
-    end in
-  let get = Stdlib.String.concat "," (Stdlib.List.map (fun i ->
-    tok_of_opt (get_issuance_asset_hash i) ^ "/" ^ tok_of_opt (get_issuance_keys_hash i)) p'.v2_ins) in
+  let (ok, p') = v2_step t op p in
   Printf.printf "res=%s pkt=%s utx=%s ext=%s get=%s\n" (if ok then "ok" else "err") (dump_v2pkt p')
-    (tx_view unsigned_issuance p') (tx_view extract_issuance p') get
+    (tx_view unsigned_issuance p') (tx_view extract_issuance p') (v2_getters p')
+
+let cmd_issh2 t =
+  let p = ref (read_v2pkt t) in
+  let n = next_int t in
+  let out = ref [] in
+  for i = 1 to n do
+    let op = next t in
+    let (ok, p') = v2_step t op !p in
+    p := p';
+    out := Printf.sprintf "r%d=%s p%d=%s u%d=%s e%d=%s g%d=%s" i (if ok then "ok" else "err") i (dump_v2pkt p')
+             i (tx_view unsigned_issuance p') i (tx_view extract_issuance p') i (v2_getters p') :: !out
+  done;
+  print_endline (Stdlib.String.concat " " (Stdlib.List.rev !out))
 
 let () =
   register "issid" cmd_issid; register "issmid" cmd_issmid; register "isscon" cmd_isscon;
-  register "issv0" cmd_issv0; register "issv2" cmd_issv2
+  register "issv0" cmd_issv0; register "issv2" cmd_issv2; register "issh0" cmd_issh0; register "issh2" cmd_issh2
